@@ -166,11 +166,11 @@ def _threading(ctx, P):
         v = make_da("v", [dimsym("AX", "center"), dimsym("AY", "left")])
         from ..absint import Builtin
 
-        class _F:
-            pass
+        USER_KW = {n: Sym("USER_" + n) for n in ("boundary", "fill_value", "metric_weighted", "keep_coords", "some_future_option")}
+        USER_KW["to"] = "center"  # the only target these helpers accept
 
         def make():
-            return dict(self=make_grid(("AX", "AY")), function=Obj("callable", "fn"), vector={AX: u, AY: v}, kwargs={"boundary": Sym("USER_BOUNDARY")})
+            return dict(self=make_grid(("AX", "AY")), function=Obj("callable", "fn"), vector={AX: u, AY: v}, kwargs=dict(USER_KW))
 
         ev2 = Evaluator(P, models={"warnings.warn": lambda ev, a, k, n: None}, call_hook=lambda ev, f, a, k, n: fn_model(ev, a, k, n) if isinstance(f, Obj) and f.kind == "callable" else NotImplemented)
         outs = ev2.run_paths(avf, make)
@@ -183,8 +183,9 @@ def _threading(ctx, P):
             ok2 = isinstance(a2[0], dict) and list(a2[0]) == [AY] and a2[0][AY] is v and a2[1] == AY and list(k2.get("other_component", {})) == [AX] and k2["other_component"][AX] is u
             if not (ok1 and ok2):
                 bad = "a component is not paired with the other component as other_component along its own axis"
-            elif k1.get("boundary") != Sym("USER_BOUNDARY") or k2.get("boundary") != Sym("USER_BOUNDARY"):
-                bad = "keyword arguments are not forwarded to both component operations"
+            elif any(k.get(n) != val for k in (k1, k2) for n, val in USER_KW.items()):
+                lost = sorted({n for k in (k1, k2) for n, val in USER_KW.items() if k.get(n) != val})
+                bad = f"the caller's keyword argument(s) {lost} do not reach both component operations"
             else:
                 res = outs[0].value
                 if not (isinstance(res, dict) and list(res) == [AX, AY] and res[AX].name == "component1" and res[AY].name == "component2"):
